@@ -116,7 +116,7 @@ def run_limit(path, method, ords):
         with fd_env(names=ALL, symkey_cache=False) as m:
             lm = m['lm']
             for order in ords:
-                for zkind in ('real', 'complex', 'array') + (('array2x3-transposed-view',) if order == ords[0] else ()):
+                for zkind in (('array2x3-transposed-view',) if order == ords[0] else ()) + ('real', 'complex', 'array'):       # structural obligations first
                     CTX.reset()
                     tag = 'order=%d,z0-%s:' % (order, zkind)
                     D = order + 1
@@ -196,12 +196,24 @@ def run_limit(path, method, ords):
                         if np.shape(val) == shape:
                             for idx in np.ndindex(shape):
                                 pv, pc = parts(C.lift(lift(asobj(val)[idx]))), parts(C.lift(lift(c0_per_element[idx])))
+                                from .pipeline import free_syms as _fs
+                                own = 'c0_%d%d' % idx
+                                foreign = sorted(s_ for s_ in _fs(*(pv + all_parts(asobj(inf.error_estimate)[idx]))) if s_.startswith('c0_') and s_ != own)
+                                solve.fact(tag + 'value%s-and-its-error-estimate-depend-on-no-other-point' % (idx,), not foreign, note=str(foreign[:4]))
+                                from .pipeline import free_syms
+                                if solve.refute_equal(tag + 'value%s==c_0%s(the-limit-at-that-point)' % (idx, idx), pv, pc, sorted(free_syms(*(pv + pc + list(H)))), seeds=tuple(range(1, 25)), hyps=H):
+                                    continue
                                 solve.prove(tag + 'value%s==c_0%s(the-limit-at-that-point)' % (idx, idx), z3.And(*[u == w for u, w in zip(pv, pc)]), H)
                             for nm_, arr_ in (('error_estimate', inf.error_estimate), ('final_step', inf.final_step)):
                                 solve.fact(tag + '%s-shape==shape(z0)' % nm_, np.shape(arr_) == shape, note=str(np.shape(arr_)))
                         continue
                     for e, v in enumerate(asobj(val).ravel()):
                         pv, pc = parts(C.lift(lift(v))), parts(cs[0])
+                        # a wrong value is refuted by exact evaluation at a rational point (cheap, and decisive where both
+                        # solvers would time out on two large different terms); otherwise the identity goes to the solver
+                        from .pipeline import free_syms
+                        if solve.refute_equal(tag + 'value[%d]==c_0' % e, pv, pc, sorted(free_syms(*(pv + pc + list(H)))), seeds=tuple(range(1, 25)), hyps=H):
+                            continue
                         solve.prove(tag + 'value[%d]==c_0' % e, z3.And(*[u == w for u, w in zip(pv, pc)]), H)
                     for e, v in enumerate(asobj(inf.error_estimate).ravel()):
                         v = lift(v)
